@@ -184,6 +184,9 @@ def analyse(run: Any, expects: Dict[tuple, Expect], retire_probe: bool = True) -
             if ex.kind == "cprio":
                 V.extend(_cprio(run, (c, i, 0), ex, out))
                 continue
+            if ex.kind == "graph":
+                V.extend(_graph(run, (c, i, 0), ex, out))
+                continue
             V.extend(_outcome(run, (c, i, 0), ex, out))
     return V
 
@@ -250,6 +253,32 @@ def _cprio(run: Any, key: tuple, ex: Expect, out: dict) -> List[dict]:
     if bad:
         return [viol("cprio_table", f"compound priority differs from own + distinct descendants: {bad[:4]} (node, tawazi, reference)",
                      op=key, tags=tags)]
+    return []
+
+
+def _graph(run: Any, key: tuple, ex: Expect, out: dict) -> List[dict]:
+    """C12.a: the real nodes of executor.graph are exactly the documented closure (debug nodes aside)."""
+    if out["status"] != "ok":
+        return [viol("raise", f"creating the executor raised {out['type']}: {out['msg'][:200]}", op=key, tags=["exc:" + out["type"]],
+                     exc_type=out["type"])]
+    table = run.tables.get(run.inst_table.get(ex.inst, ""), {})
+    funcs = run.spec["funcs"]
+    dg = run.spec["dags"][spec_dag_of(run, ex.inst)]
+    got = set()
+    for nid in out["value"][1]:
+        info = table.get(nid)
+        if info is not None and info["role"] == "main" and info["path"] is not None and len(info["path"]) == 1:
+            got.add(info["path"][0][1])
+    is_debug = {i for i, s_ in enumerate(dg["stmts"]) if s_["k"] == "call" and funcs[s_["fn"]]["debug"]}
+    want = set(ex.selected or ())
+    if ex.debug_on:
+        got -= is_debug   # which additional debug nodes a sub-graph pulls in is not asserted
+        want -= is_debug
+    else:
+        want -= is_debug
+    if got != want:
+        return [viol("graph", f"executor.graph holds statements {sorted(got)}, documented closure is {sorted(want)}", op=key,
+                     tags=["debug"] if (got ^ want) <= is_debug else [])]
     return []
 
 
@@ -465,6 +494,16 @@ def _analyse_exec(run: Any, ea: ExecAnalysis, retire_probe: bool, aborted: bool,
                 if s in attrs and attrs[s]["seq"]:
                     V.append(viol("seq_during", f"{nid} entered while sequential node {s} is running", op=opkey, tok=tok, seq=seq))
             inside.add(nid)
+            # C13.c: a debug node pulled into a sub-graph run (outside the user's selection) has all its inputs available
+            if a["debug"] and ex.debug_on and ex.selected is not None and a["role"] == "main" and len(a["path"]) == 1 \
+                    and a["path"][0][1] not in ex.selected:
+                for d in deps.get(nid, ()):
+                    st_d = status.get(attrs[d]["path"]) if d in attrs else None
+                    if d not in exit_seq and st_d != "memo":
+                        V.append(viol("debug_input_missing", f"debug node {nid} was pulled into the sub-graph run although its input {d} "
+                                      f"is neither executed nor pre-computed", op=opkey, tok=tok, tags=["debug"]))
+                inside.add(nid)
+                continue
             # nothing else runs
             if nid not in expected_exec and not failing:
                 g = "deact_ran" if nid in expected_deact else "count_extra"
